@@ -175,6 +175,9 @@ func init() {
 		"vIsReplay": func(ex *Exec, _ *frame, _ *ssa.Function, a []Value) (Value, bool) {
 			return false, true
 		},
+		"vStamp": func(ex *Exec, _ *frame, _ *ssa.Function, a []Value) (Value, bool) {
+			return ex.stamp(), true
+		},
 		"vPar": func(ex *Exec, caller *frame, _ *ssa.Function, a []Value) (Value, bool) {
 			ex.runThreads(caller, a[0].([]Value))
 			return nil, true
@@ -263,6 +266,32 @@ func init() {
 		},
 		"(*sync.Mutex).Lock":   mutexLock,
 		"(*sync.Mutex).Unlock": mutexUnlock,
+		"(*sync.RWMutex).Lock":   mutexLock,
+		"(*sync.RWMutex).Unlock": mutexUnlock,
+		"(*sync.RWMutex).RLock": func(ex *Exec, _ *frame, _ *ssa.Function, a []Value) (Value, bool) {
+			p := a[0].(*Value)
+			if ex.threads != nil {
+				ex.threads.rlock(ex, p)
+				return nil, true
+			}
+			if ex.mutexHeld[p] {
+				ex.fail("deadlock", "sync.RWMutex read-locked while write-locked by the same sequential caller", "")
+			}
+			ex.rlockHeld[p]++
+			return nil, true
+		},
+		"(*sync.RWMutex).RUnlock": func(ex *Exec, _ *frame, _ *ssa.Function, a []Value) (Value, bool) {
+			p := a[0].(*Value)
+			if ex.threads != nil {
+				ex.threads.runlock(ex, p)
+				return nil, true
+			}
+			if ex.rlockHeld[p] == 0 {
+				ex.fail("panic", "sync: RUnlock of unlocked RWMutex", "")
+			}
+			ex.rlockHeld[p]--
+			return nil, true
+		},
 		"(*sync.Pool).Get": func(ex *Exec, caller *frame, fn *ssa.Function, a []Value) (Value, bool) {
 			p := a[0].(*Value)
 			if l := ex.pool[p]; len(l) > 0 {
@@ -351,7 +380,7 @@ func mutexLock(ex *Exec, _ *frame, _ *ssa.Function, a []Value) (Value, bool) {
 		ex.threads.lock(ex, p)
 		return nil, true
 	}
-	if ex.mutexHeld[p] {
+	if ex.mutexHeld[p] || ex.rlockHeld[p] > 0 {
 		ex.fail("deadlock", "sync.Mutex locked twice by the same sequential caller", "")
 	}
 	ex.mutexHeld[p] = true
